@@ -101,7 +101,7 @@ pub enum Act {
     MigrateSame,
 }
 
-pub const OLD_VERSIONS: [&str; 2] = ["0.13.4", "0.12.1"];
+pub const OLD_VERSIONS: [&str; 6] = ["0.13.4", "0.12.1", "0.10.3", "0.9.1", "0.2.3", "0.13.0"];
 
 #[derive(Clone, Debug, Default)]
 pub struct Props {
@@ -873,8 +873,9 @@ impl Model for Cw20Model {
             out.push(Act::Advance);
         }
         if cfg.migrate_probe {
-            out.push(Act::MigrateOld { version: 0 });
-            out.push(Act::MigrateOld { version: 1 });
+            for version in 0..OLD_VERSIONS.len() as u8 {
+                out.push(Act::MigrateOld { version });
+            }
             out.push(Act::MigrateSame);
         }
         out
